@@ -98,6 +98,50 @@ def has_nan(t):
     return any(has_nan(k) or has_nan(v) for k, v in t[1])
 
 
+def _num_of_atom(a):
+    """numeric value of an integer / float atom that is == to a Bool (0 or 1), else None"""
+    k, _, txt = a.partition(".")
+    try:
+        if k in ("I64", "U64", "I128", "U128"):
+            v = int(txt)
+            return v if v in (0, 1) else None
+        if k == "F":
+            bits = int(txt, 16)
+            return {0x0: 0, 0x8000000000000000: 0, 0x3FF0000000000000: 1}.get(bits)
+    except ValueError:
+        pass
+    return None
+
+
+def layout_dependent(t):
+    """does the value contain a map with a Bool key and a numeric key that is == to it?  (under
+    preserve_order such a map is one entry or two depending on the hash state of the instance)"""
+    if t[0] == "atom":
+        return False
+    if t[0] == "list":
+        return any(layout_dependent(x) for x in t[2])
+    bools = {1 if k[2] == "t" else 0 for k, _ in t[1] if k[0] == "atom" and k[2] in ("t", "f")}
+    nums = {_num_of_atom(k[2]) for k, _ in t[1] if k[0] == "atom"} - {None}
+    if bools & nums:
+        return True
+    return any(layout_dependent(k) or layout_dependent(v) for k, v in t[1])
+
+
+def layout_dependent_case(case):
+    f = case.split(" ")
+    if f[0] not in ("pairv", "valv", "triple"):
+        return False
+    for enc_ in f[1:]:
+        if enc_ == "?":
+            continue
+        try:
+            if layout_dependent(parse(enc_)):
+                return True
+        except Exception:
+            pass
+    return False
+
+
 def top_kind(t):
     if t[0] == "atom":
         return t[1]
@@ -470,7 +514,25 @@ def run(r):
         exe = r.cargo_build("c07", features=list(feats)) if feats else r.cargo_build("c07")
         if exe is None:
             continue
-        check_mode(r, mode, exe)
+        if mode == "index":
+            # An IndexMap built from pairs with a Bool key and an ==-equal numeric key (`{true: 2, 1: 1}`)
+            # holds one or two entries depending on the random hash state of that map instance (the keys
+            # are == but hash apart: known finding eq-vs-hash:Bool~Number), so every law observed on a
+            # value containing such a map can fail in one run and hold in the next.  Such failures are
+            # attributed to their root cause, one stable site, instead of the law that happened to fail.
+            plain_of = r.oracle_failure
+
+            def of(case, what, site=None, _plain=plain_of):
+                if layout_dependent_case(case):
+                    site = "indexmap-layout:eq-keys-hash-apart"
+                _plain(case, what, site)
+            r.oracle_failure = of
+            try:
+                check_mode(r, mode, exe)
+            finally:
+                del r.oracle_failure
+        else:
+            check_mode(r, mode, exe)
 
 
 def replay(r, path):
